@@ -807,11 +807,15 @@ func selftest(args []string) int {
 // the property's quick check must report a violation.
 func mutants(args []string) int {
 	pattern := "*"
-	if len(args) > 0 {
+	onlySeeded := len(args) > 0 && args[0] == "seeded"
+	if len(args) > 0 && !onlySeeded {
 		pattern = args[0] + "-*"
 	}
 	files, _ := filepath.Glob(filepath.Join(verifDir, "mutants", pattern+".patch"))
 	sort.Strings(files)
+	if onlySeeded {
+		files = nil
+	}
 	// the changes seeded by independent sub-agents are kept as seeded/<ID>-<name>/patch.diff and re-run the same way
 	seeded, _ := filepath.Glob(filepath.Join(verifDir, "seeded", pattern, "patch.diff"))
 	sort.Strings(seeded)
